@@ -134,7 +134,7 @@ class Layout:
         self.last_entry_line = self.line
         self.desc.append("entry(%s%s%s)" % (vkind, ",tail" if tail else "", ",dup" if first_idx != len(self.exps) - 1 else ""))
 
-    def cont(self, indent=" ", n=1, trail="", final_nl=True, python_text=None):
+    def cont(self, indent=" ", n=1, trail="", final_nl=True, python_text=None, tail=""):
         """continuation line; only valid directly after an entry/cont line"""
         assert self.last_entry_line == self.line and not self.mixed and self.delim != ""
         self.line += 1
@@ -145,7 +145,15 @@ class Layout:
         if self.has_wsp:
             trail = ""          # under a blank delimiter a trailing blank would make the line "key<delim>"
         self.put(body + trail)
-        end = len(self.tpl)
+        if tail and not self.python:
+            # trailing comment on a continuation line: the value keeps the raw text up to the comment character
+            if self.has_wsp: tail = tail.lstrip(" \t")
+            i = tail.find("H")
+            self.put(tail[:i])
+            end = len(self.tpl)
+            self.put("h" + "c" * (len(tail) - i - 1))
+        else:
+            end = len(self.tpl)
         self.nl(final_nl)
         ex = self.exps[-1]
         start = a1 if self.python else a0
@@ -357,7 +365,8 @@ def random_layout(rng, delim, comment, nlines, want_err=False, python=False, met
                 vk = "plain3"
             L.entry(rng.choice(["", " ", "\t"]) if not python else "", klen, rng.choice(forms), vk, tail, dup_of=dup, final_nl=fin)
         elif k == "cont":
-            L.cont(rng.choice([" ", "\t", "  "]), rng.choice([1, 2, 3]), rng.choice(["", " "]), final_nl=fin)
+            L.cont(rng.choice([" ", "\t", "  "]), rng.choice([1, 2, 3]), rng.choice(["", " "]), final_nl=fin,
+                   tail="" if (meta or python) else rng.choice(["", "", "Hc", " Hcc", "H"]))
     return L
 
 
@@ -386,7 +395,7 @@ def systematic_layouts(delim, comment, meta=False):
                 elif kind == "entry": L.entry(" ", 1, forms[-1], "quoted2" if delim else "none", "")
                 elif kind == "dup": L.entry("", 2, forms[0], "plain3" if delim else "none", "", dup_of=0 if L.exps else None)
                 elif kind == "cont":
-                    if L.last_entry_line == L.line and L.line > 0 and not L.mixed and delim: L.cont(" ", 2, "")
+                    if L.last_entry_line == L.line and L.line > 0 and not L.mixed and delim: L.cont(" ", 2, "", tail=" Hc" if order else "")
                     else: L.blank("")
             if order == 0: other(); ent()
             else: ent(); other()
